@@ -369,7 +369,7 @@ func wireOracle(c Case, a, b []string) []Failure {
 			if t[1] == "pushblob" && aErr && strings.HasSuffix(da, "SIZE_INVALID") && (arg(6) == "" || t[5] == "0") {
 				cl = "wire-size-not-enforced" // F20: net/http does not enforce a declared size of 0, nor any size on an empty body
 			}
-			if t[1] == "getblobrange" && !aErr {
+			if t[1] == "getblobrange" && !aErr && emptyRange { // only offset0 == offset1: `bytes=N-` and ranges on the empty blob are expressible
 				if okr, _, _, _, data := parseRead(da); okr && data == "" {
 					cl = "wire-empty-range" // F3: HTTP cannot express an empty range
 				}
